@@ -199,7 +199,15 @@ def _reordered(rng, data):
     return data
 
 
+_OFF_GRID = [2 / 3, 1 / 3, 0.1 + 0.2, 1 / 7, 3.141592653589793, 1e-7, 0.0000005, 0.0000015, 1.0000004, 2.9999996, 0.6666665, 10 / 3]
+
+
 def _pulse(rng):
+    if rng.random() < 0.1:
+        # a pulsetime that is not a whole number of microseconds: the window is what timedelta(seconds=p) makes of it, in
+        # heartbeat_merge and in heartbeat_reduce alike
+        p = rng.choice(_OFF_GRID)
+        return p, td_us(timedelta(seconds=p))
     pu = rng.choice(_PULSES_US) if rng.random() < 0.8 else rng.randrange(0, 20 * 10**6)
     p = pu / 10**6
     if td_us(timedelta(seconds=p)) != pu:
@@ -228,6 +236,11 @@ def gen_case(rng, ctx):
         e1end = base + s1 * unit + d1
         r = rng.random()
         if r < 0.45:   # boundary: s2 around e1 + p
+            if rng.random() < 0.4 and d1 >= 0:
+                # the first event ends so that end + pulsetime falls on a whole millisecond: the heartbeat (whose start is
+                # cut to the millisecond) can then sit EXACTLY on the far edge of the window
+                d1 += (-(e1end + pu)) % 1000
+                e1end = base + s1 * unit + d1
             s2 = e1end + pu + rng.choice([0, 0, 1000, -1000, 1, -1, 2000, -2000])
             s2 = floor_ms(s2) if rng.random() < 0.8 else s2
         elif r < 0.6:
@@ -265,6 +278,8 @@ def gen_case(rng, ctx):
         step = rng.choice([0, 1, 1, 2, 3, -1, -2, 5])
         pos = max(0, pos + step)
         if rng.random() < 0.3:   # land exactly on the pulse boundary of the previous end
+            if evs[-1]["dur"] >= 0 and rng.random() < 0.5:
+                evs[-1]["dur"] += (-(evs[-1]["ts"] + evs[-1]["dur"] + pu)) % 1000      # end + pulsetime on a whole millisecond
             nxt = evs[-1]["ts"] + evs[-1]["dur"] + pu + rng.choice([0, 1000, -1000])
             if nxt > 0 and rng.random() < 0.5:
                 evs.append(dict(ts=floor_ms(nxt), dur=rng.choice([0, unit]), data=evs[-1]["data"]))
